@@ -181,8 +181,8 @@ PROPS["C13"] = dict(
 )
 
 PROPS["C11"] = dict(
-    modules=["Sth.Props.C01", "Sth.Props.C08"],
-    theorems=list(CORE_RL),
+    modules=["Sth.Props.C01", "Sth.Props.C08", "Sth.Props.C11"],
+    theorems=list(CORE_RL) + ["Sth.C11_index_file_released", "Sth.C11_index_released_stays", "Sth.C11_index_reap_free_file"],
     runs=[dict(engine="seq", quick=200, thorough=10000, extra=["-profile", "c11"], nontrivial=["c11-dead-primary-files", "c11-unreferenced-index-files"]),
           dict(engine="crash", quick=48, thorough=1500, nontrivial=["c11-drain-after-recovery"])],
     crash_lines=True,
